@@ -26,6 +26,12 @@ func runC08(c *Ctx) {
 	// code that normalises "its own copy" in place (explode before printing,
 	// key re-tagging in the properties encoder) then rewrites the input.
 	ruleK1w(c, "X4", 12)
+	// X5: the pipe hands on results, not contexts: what `|` returns is its own (read-only
+	// as received) context around the right side's results. Returning the right side's
+	// Context lets a writable context made inside an operand (object construction) escape
+	// into operators that reuse the context they get back (reduce).
+	r.Rule("X5", "`|` returns its own context around the right side's results", 2)
+	checkN1(c, "X5")
 	r.Assume("expression strings parsed at run time from constants (array_to_map, PrettyPrintExp) are not visible to the IR")
 	r.Assume("third-party functions do not store into CandidateNode fields (they do not know the type); reflection-based copier.Copy is only applied to preference structs")
 }
